@@ -103,9 +103,17 @@ class JobControl:
         return self._active_agent
 
     def is_running(self, name) -> bool:
-        if self._active_agent is not None and self._active_agent.name == name:
-            return True
-        return name in self._background
+        result = False
+        if self._acquire_lock():
+            try:
+                if (self._active_agent is not None
+                        and self._active_agent.name == name):
+                    result = True
+                else:
+                    result = name in self._background
+            finally:
+                self._release_lock()
+        return result
 
     def stop_background(self) -> bool:
         result = False
@@ -138,14 +146,16 @@ class JobControl:
         return result
 
     def stop_current(self) -> bool:
-        if self._active_agent is not None and self._active_agent.is_running():
-            if self._acquire_lock():
-                try:
+        result = False
+        if self._acquire_lock():
+            try:
+                if (self._active_agent is not None
+                        and self._active_agent.is_running()):
                     self._active_agent.request_stop()
-                finally:
-                    self._release_lock()
-                return True
-        return False
+                    result = True
+            finally:
+                self._release_lock()
+        return result
 
     def has_jobs(self) -> bool:
         return (len(self._queue) > 0 or len(self._background) > 0 or
